@@ -607,6 +607,8 @@ type frame struct {
 	escaped int // returns executed in this activation
 	loops   []loopCtx
 	nloops  int // loops met so far in this activation (ordinal)
+	// a deferred recovering handler is installed: faults below may be caught and end this activation normally
+	recovering bool
 }
 
 // onStack reports whether fn is being executed in this frame or one of its callers.
